@@ -109,7 +109,7 @@ func c07guard(p *Prog, r *Report) {
 		r.Anchor(rule, "hashgraph.(*Hashgraph).InsertEvent")
 		return
 	}
-	event := ssa.Value(fn.Params[1])
+	event := paramByType(fn, 1, "Event")
 	verifyM := named(HG + ".Event.Verify")
 	cspM := named(HG + ".Hashgraph.checkSelfParent")
 	copM := named(HG + ".Hashgraph.checkOtherParent")
@@ -195,7 +195,7 @@ func c07guard(p *Prog, r *Report) {
 	if csp == nil {
 		r.Anchor(rule, "hashgraph.(*Hashgraph).checkSelfParent")
 	} else {
-		ev := ssa.Value(csp.Params[1])
+		ev := paramByType(csp, 1, "Event")
 		lastM := storeM("LastEventFrom")
 		isSelfParentVal := func(x ssa.Value) bool {
 			if c, _, ok := isCallTo(x, named(HG+".Event.SelfParent")); ok {
